@@ -863,6 +863,12 @@ BULK_CALLS = [b for b in BULK_CALLS if b[1] is not None]
 
 def battery(tname):
     out = list(BATTERY.get(tname, []))
+    # empty containers are inputs like any other (and the classic place for a shared pre-built result)
+    fam = FAMILY.get(tname)
+    if fam == "iterable" and "empty_l" not in out:
+        out.insert(min(1, len(out)), "empty_l")
+    elif fam == "mapping" and "empty_d" not in out:
+        out.insert(min(1, len(out)), "empty_d")
     for a in ATOMS:
         if a not in out:
             out.append(a)
@@ -1067,8 +1073,17 @@ DUMP_BATTERY: Dict[str, List[str]] = {
 }
 
 
+_EMPTY_OBJ = {"ListInt": "o_empty_list", "listInt": "o_empty_list", "SeqInt": "o_empty_list", "IterInt": "o_empty_list",
+              "ListListInt": "o_empty_list", "ListStr": "o_empty_list", "ListAny": "o_empty_list", "SeqListInt": "o_empty_list",
+              "DictStrInt": "o_empty_dict", "MapStrInt": "o_empty_dict", "DictStrListInt": "o_empty_dict",
+              "DictStrAny": "o_empty_dict", "MapStrListInt": "o_empty_dict", "dictStrInt": "o_empty_dict"}
+
+
 def dump_battery(tname):
-    return list(DUMP_BATTERY.get(tname, ["o_i1", "o_none"]))
+    out = list(DUMP_BATTERY.get(tname, ["o_i1", "o_none"]))
+    if tname in _EMPTY_OBJ and tname in DUMP_BATTERY:
+        out.insert(1, _EMPTY_OBJ[tname])
+    return out
 
 
 # converter pairs: name -> (src hint, dst hint, [object names])
